@@ -47,6 +47,7 @@ struct Src {
 
 struct Report {
 	bool verbose = false;
+	bool trace = false;		// print say() output at once (replay of aborting cases)
 	std::string desc;		// human readable case, filled when verbose
 	std::string sig;		// violation signature
 	std::string detail;		// violation detail
@@ -62,6 +63,7 @@ struct Report {
 		char buf[2048];
 		va_list ap; va_start(ap, fmt); vsnprintf(buf, sizeof buf, fmt, ap); va_end(ap);
 		if (desc.size() < 60000) desc += buf;
+		if (trace) { fputs(buf, stdout); fflush(stdout); }
 	}
 	int fail(const char *sig_, const char *fmt, ...) __attribute__((format(printf, 3, 4))) {
 		char buf[4096];
@@ -105,7 +107,9 @@ extern const char *vf_rule;			// generation + non-triviality rule (evidence text
 int vf_run_case(vf::Src &s, vf::Report &r);	// 0 ok, 1 violation (r.sig set), 2 discarded
 // optional (weak defaults in the drivers):
 // exhaustive sub-check, partitioned over workers; returns 0 ok / 1 violation
-struct VfExh { uint64_t evaluations = 0; uint64_t nontrivial = 0; bool complete = false; std::string what; };
+struct VfExh { uint64_t evaluations = 0; uint64_t nontrivial = 0; bool complete = false; std::string what;
+	std::vector<uint8_t> fail_case;	// choice sequence reproducing an enumerated failure through vf_run_case (optional)
+};
 int vf_exhaustive(vf::Report &r, bool thorough, int worker, int nworkers, VfExh &e);
 void vf_defaults(bool thorough, uint64_t *cases, size_t *max_size);	// total cases over all workers
 bool vf_leak_check();				// default true
